@@ -168,6 +168,14 @@ class Peg:
             return v, s2
         if k in ('raw', 'unrec', 'ctxpush'):
             return self.ev(g[-1], s)
+        if k == 'stabilize':
+            try:
+                return self.ev(g[1], s)
+            except Fail:
+                # what a failing stabilised parser does depends on a recover state left on the lexer
+                raise NotCovered('stabilize retry')
+        if k == 'probe':
+            return 'unit', s
         # ---- captures (C14): span / text of the tokens the wrapped parser consumed ----
         if k in ('text', 'spanned'):
             v, s1 = self.ev(g[1], s)
